@@ -734,6 +734,18 @@ pub fn run(args: &Args) -> i32 {
             ev.violation(sig, what2, json!({"leg": "tls_stalled_handshake", "scenario": what}));
         }
     }
+    // a request in flight to a silent peer, then shutdown / handle drop / disable
+    for unbounded in [false, true] {
+        for action in ["shutdown", "drop_handle", "disable"] {
+            let mut e = Evidence::new();
+            let problems = rt.block_on(request_in_flight(action, unbounded, &mut e));
+            ev.merge(e);
+            ev.eval();
+            for (sig, what2) in problems {
+                ev.violation(sig, what2, json!({"leg": "request_in_flight", "action": action, "no_timeout": unbounded}));
+            }
+        }
+    }
     // serial port that is disabled while open, disappears and comes back
     {
         let reps = args.tier.pick(2usize, 20);
@@ -763,6 +775,7 @@ pub fn run(args: &Args) -> i32 {
         floors: vec![
             ("notifications".into(), args.tier.pick(1_500, 50_000)),
             ("tls_stalled_handshake_scenarios".into(), 4),
+            ("request_in_flight_scenarios".into(), 6),
             ("serial_port_released_after_disable".into(), 0),
             ("requests_checked".into(), args.tier.pick(150, 5_000)),
             ("distinct_state_paths".into(), 0),
@@ -876,5 +889,160 @@ pub async fn tls_stalled_handshake(what: &'static str, ev: &mut Evidence) -> Vec
         Err(_) => problems.push((format!("tls_stalled_handshake:task_did_not_terminate:{what}"), format!("the TLS client task was still running 5 s after {} while its handshake was pending; states {:?}", if what == "drop_handle" { "its handles were dropped" } else { "shutdown" }, names(&states)))),
     }
     silent.abort();
+    problems
+}
+
+/// A request is in flight to a peer that took it and stays silent; then shutdown / drop of every
+/// handle / disable. With an ordinary response timeout the command is honoured when the request has
+/// timed out (bounded: timeout + slack). With a timeout that never elapses ("no timeout",
+/// `Duration::MAX`) the property still says "from every state": waiting for the reply must not make
+/// the task deaf to shutdown, the drop of its handles or disable.
+#[allow(deprecated)]
+pub async fn request_in_flight(action: &'static str, unbounded: bool, ev: &mut Evidence) -> Vec<(String, String)> {
+    let mut problems = vec![];
+    let Ok(listener) = tokio::net::TcpListener::bind("127.0.0.1:0").await else {
+        ev.inconclusive("in-flight leg: bind");
+        return problems;
+    };
+    let port = listener.local_addr().unwrap().port();
+    // the peer reads everything, never replies, and closes its connections when told to
+    let got = std::sync::Arc::new(AtomicU64::new(0));
+    let eofs = std::sync::Arc::new(AtomicU64::new(0));
+    let (close_tx, _) = tokio::sync::broadcast::channel::<()>(4);
+    let (got2, eofs2, close2) = (got.clone(), eofs.clone(), close_tx.clone());
+    let peer = tokio::spawn(async move {
+        while let Ok((mut s, _)) = listener.accept().await {
+            let (got3, eofs3, mut close3) = (got2.clone(), eofs2.clone(), close2.subscribe());
+            tokio::spawn(async move {
+                use tokio::io::AsyncReadExt;
+                let mut buf = [0u8; 512];
+                loop {
+                    tokio::select! {
+                        r = s.read(&mut buf) => match r {
+                            Ok(0) | Err(_) => { eofs3.fetch_add(1, Ordering::SeqCst); return; }
+                            Ok(n) => { got3.fetch_add(n as u64, Ordering::SeqCst); }
+                        },
+                        _ = close3.recv() => return,
+                    }
+                }
+            });
+        }
+    });
+    let states = std::sync::Arc::new(std::sync::Mutex::new(vec![]));
+    let (channel, task) = create_tcp_client_task_with_options(
+        HostAddr::ip(IpAddr::V4(Ipv4Addr::LOCALHOST), port),
+        doubling_retry_strategy(Duration::from_millis(100), Duration::from_millis(100)),
+        Some(Box::new(PlainLog { states: states.clone() })),
+        ClientOptions::default(),
+    );
+    let jh = tokio::spawn(task.run());
+    let _ = channel.enable().await;
+    let tc = Instant::now();
+    while !states.lock().unwrap().iter().any(|s| matches!(s, ClientState::Connected)) && tc.elapsed() < Duration::from_secs(5) {
+        tokio::time::sleep(Duration::from_millis(2)).await;
+    }
+    let timeout = if unbounded { Duration::MAX } else { Duration::from_millis(700) };
+    let (tx, mut rx) = oneshot::channel();
+    let completions = std::sync::Arc::new(AtomicU64::new(0));
+    let c2 = completions.clone();
+    {
+        let mut session = CallbackSession::new(channel.clone(), RequestParam::new(UnitId::new(1), timeout));
+        let tx = std::sync::Mutex::new(Some(tx));
+        session
+            .read_holding_registers(AddressRange::try_from(0, 2).unwrap(), move |r| {
+                c2.fetch_add(1, Ordering::SeqCst);
+                if let Some(tx) = tx.lock().unwrap().take() {
+                    let _ = tx.send(r.map(|it| it.collect::<Vec<_>>()));
+                }
+            })
+            .await;
+    }
+    // the request has been transmitted: the task is now waiting for the reply
+    let t0 = Instant::now();
+    while got.load(Ordering::SeqCst) < 12 && t0.elapsed() < Duration::from_secs(5) {
+        tokio::time::sleep(Duration::from_millis(2)).await;
+    }
+    if got.load(Ordering::SeqCst) < 12 {
+        ev.inconclusive("in-flight leg: the request never reached the peer");
+        peer.abort();
+        return problems;
+    }
+    let sent_at = Instant::now();
+    tokio::time::sleep(Duration::from_millis(40)).await;
+    ev.count("request_in_flight_scenarios", 1);
+    ev.class(format!("request_in_flight|{action}|{}", if unbounded { "no_timeout" } else { "timeout_700ms" }));
+    let names = |s: &std::sync::Arc<std::sync::Mutex<Vec<ClientState>>>| s.lock().unwrap().iter().map(state_name).collect::<Vec<_>>();
+    let disabled_count = |s: &std::sync::Arc<std::sync::Mutex<Vec<ClientState>>>| s.lock().unwrap().iter().filter(|x| matches!(x, ClientState::Disabled)).count();
+    let mut channel = Some(channel);
+    match action {
+        "shutdown" => {
+            let _ = channel.as_mut().unwrap().shutdown().await;
+        }
+        "drop_handle" => {
+            channel = None;
+        }
+        _ => {
+            let _ = channel.as_mut().unwrap().disable().await;
+        }
+    }
+    // honoured = the task ended (shutdown / drop) or Disabled was announced and the connection closed (disable)
+    let mut jh = jh;
+    let honoured = |jh: &tokio::task::JoinHandle<_>| if action == "disable" { disabled_count(&states) >= 2 && eofs.load(Ordering::SeqCst) >= 1 } else { jh.is_finished() };
+    let wait = if unbounded { Duration::from_millis(2500) } else { Duration::from_millis(700 + 3000) };
+    let t1 = Instant::now();
+    while !honoured(&jh) && t1.elapsed() < wait {
+        tokio::time::sleep(Duration::from_millis(5)).await;
+    }
+    if !honoured(&jh) {
+        if unbounded {
+            problems.push((
+                format!("request_in_flight:no_timeout:{action}_not_honoured"),
+                format!("a request with a response timeout that never elapses (Duration::MAX) was in flight to a silent peer; 2.5 s after {action} the task had not reacted (task finished={}, states {:?}, connections closed by the client={})", jh.is_finished(), names(&states), eofs.load(Ordering::SeqCst)),
+            ));
+        } else {
+            problems.push((
+                format!("request_in_flight:bounded:{action}_not_honoured"),
+                format!("a request with a 700 ms response timeout was in flight to a silent peer; {action} was not honoured within 3 s after the deadline (task finished={}, states {:?}, connections closed by the client={})", jh.is_finished(), names(&states), eofs.load(Ordering::SeqCst)),
+            ));
+        }
+        // let the request fail on a closed connection so that the scenario can end
+        let _ = close_tx.send(());
+        let t2 = Instant::now();
+        // (the connection is gone: for disable, the Disabled notification is what is left to see)
+        let honoured2 = |jh: &tokio::task::JoinHandle<_>| if action == "disable" { disabled_count(&states) >= 2 } else { jh.is_finished() };
+        while !honoured2(&jh) && t2.elapsed() < Duration::from_secs(5) {
+            tokio::time::sleep(Duration::from_millis(5)).await;
+        }
+        if !honoured2(&jh) {
+            problems.push((format!("request_in_flight:{action}_not_honoured_after_connection_loss"), format!("{action} had no effect even 5 s after the peer closed the connection; states {:?}", names(&states))));
+        }
+    }
+    // the request completes exactly once, and not with data
+    match tokio::time::timeout(Duration::from_secs(5), &mut rx).await {
+        Ok(Ok(Ok(v))) => problems.push(("request_in_flight:data_from_silent_peer".into(), format!("the request to a silent peer completed with {v:?}"))),
+        Ok(Ok(Err(e))) => {
+            ev.class(format!("request_in_flight|result|{action}|{}", format!("{e:?}").split('(').next().unwrap()));
+            if !unbounded && matches!(e, RequestError::ResponseTimeout) && sent_at.elapsed() < Duration::from_millis(600) {
+                problems.push(("request_in_flight:timeout_before_deadline".into(), format!("ResponseTimeout {:?} after transmission with a 700 ms timeout", sent_at.elapsed())));
+            }
+        }
+        Ok(Err(_)) => problems.push(("request_in_flight:callback_dropped".into(), "the callback of the request in flight was dropped without being invoked".into())),
+        Err(_) => problems.push(("request_in_flight:pending".into(), format!("the request in flight was still pending 5 s after {action} had been honoured; states {:?}", names(&states)))),
+    }
+    // end of the scenario
+    if let Some(mut ch) = channel.take() {
+        let _ = ch.shutdown().await;
+    }
+    if tokio::time::timeout(Duration::from_secs(5), &mut jh).await.is_err() {
+        problems.push(("request_in_flight:task_did_not_terminate".into(), format!("task still running 5 s after the final shutdown; states {:?}", names(&states))));
+        jh.abort();
+    } else if names(&states).last() != Some(&"Shutdown") || names(&states).iter().filter(|n| **n == "Shutdown").count() != 1 {
+        problems.push(("request_in_flight:shutdown_not_once_and_last".into(), format!("states {:?}", names(&states))));
+    }
+    tokio::time::sleep(Duration::from_millis(20)).await;
+    if completions.load(Ordering::SeqCst) != 1 {
+        problems.push(("request_in_flight:completions".into(), format!("the callback of the request in flight ran {} times", completions.load(Ordering::SeqCst))));
+    }
+    peer.abort();
     problems
 }
